@@ -8,6 +8,7 @@ import GoRes.Driver.Pool
 import GoRes.Driver.Idx
 import GoRes.Driver.Codec
 import GoRes.Driver.ReqLoad
+import GoRes.Driver.SendReq
 /-! `gores-driver <domain>`: one op line in, one line `model<TAB>spec<TAB>tag` out. -/
 open GoRes GoRes.Wire
 
@@ -45,6 +46,7 @@ def stepLine (dom : String) (st : DState) (full : String) : DState × String :=
       ({ st with idx := is }, m ++ "\t" ++ s ++ "\t" ++ t)
     | "codec" => let (m, s, t) := GoRes.Driver.Codec.run args; (st, m ++ "\t" ++ s ++ "\t" ++ t)
     | "reqload" => let (m, s, t) := GoRes.Driver.ReqLoad.run args; (st, m ++ "\t" ++ s ++ "\t" ++ t)
+    | "sendreq" => let (m, s, t) := GoRes.Driver.SendReq.run args; (st, m ++ "\t" ++ s ++ "\t" ++ t)
     | "subs" => let (m, s, t) := GoRes.Driver.Subs.run args impl; (st, m ++ "\t" ++ s ++ "\t" ++ t)
     | _ => (st, "bad-domain\t-\tbad")
 
